@@ -717,6 +717,35 @@ Proof.
   destruct (mul_carry (vl v) y 0) as [l' c']. cbn [fst] in *. tauto.
 Qed.
 
+(** the same in terms of the carry that leaves the top limb *)
+Lemma ge_iff_div_nonzero a M : 0 <= a -> 0 < M -> (M <= a <-> a / M <> 0).
+Proof.
+  intros Ha HM. rewrite Z.div_small_iff by lia. lia.
+Qed.
+
+Corollary small_add_None_carry c v y :
+  limbs_ok (vl v) -> 0 <= y < B64 ->
+  (small_add c v y = None <->
+   alloc c = false /\ vcap v <= zlen (vl v) /\ snd (add_carry (vl v) y) <> 0).
+Proof.
+  intros Hl Hy. rewrite small_add_None by assumption.
+  destruct (add_carry_divmod (vl v) y Hl Hy) as [_ D]. rewrite D.
+  pose proof (lval_nonneg _ Hl).
+  rewrite <- ge_iff_div_nonzero by (try lia; apply B64pow_pos', zlen_nonneg). tauto.
+Qed.
+
+Corollary small_mul_None_carry c v y :
+  limbs_ok (vl v) -> 0 <= y < B64 ->
+  (small_mul c v y = None <->
+   alloc c = false /\ vcap v <= zlen (vl v) /\ snd (mul_carry (vl v) y 0) <> 0).
+Proof.
+  intros Hl Hy. rewrite small_mul_None by assumption.
+  destruct (mul_carry_divmod (vl v) y 0 Hl Hy ltac:(split; [lia|reflexivity])) as [_ D].
+  rewrite D, Z.add_0_r.
+  pose proof (lval_nonneg _ Hl).
+  rewrite <- ge_iff_div_nonzero by (try nia; apply B64pow_pos', zlen_nonneg). tauto.
+Qed.
+
 (** examples: stack back-end (CFG_s), capacity 62 *)
 Definition full_ones : vec := mkVec (repeat (B64 - 1) 62) (BIGINT_LIMBS LIMITS).
 
@@ -2034,8 +2063,140 @@ Proof.
 Qed.
 
 Example pow5_overflow_ex :
-  (* 5^1722 < 2^3968 = B64^62 <= 5^1723 *)
+  (* 5^1708 < 2^3968 = B64^62 <= 5^1709 *)
   out_val (pow5 CFG_s TABLES LIMITS checked_build (mkVec [1] 62) 1708) = Some (5 ^ 1708) /\
   pow5 CFG_s TABLES LIMITS checked_build (mkVec [1] 62) 1709 = Ok None /\
   5 ^ 1708 < B64 ^ 62 <= 5 ^ 1709.
 Proof. vm_compute. repeat split; reflexivity || discriminate. Qed.
+
+(** ** the generated tables and limits (every configuration of the crate) *)
+Theorem pow5_TABLES_spec c b v e v' :
+  limbs_ok (vl v) -> 0 < lval (vl v) -> 0 <= e ->
+  pow5 c TABLES LIMITS b v e = Ok (Some v') ->
+  lval (vl v') = lval (vl v) * 5 ^ e /\ limbs_ok (vl v').
+Proof.
+  intros Hv Hp He H. apply pow5_spec in H; try assumption; [tauto|].
+  intros _. exact pow5_tables_ok_TABLES.
+Qed.
+
+Theorem pow5_TABLES_total c b v e :
+  limbs_ok (vl v) -> 0 < lval (vl v) -> 0 <= e ->
+  (alloc c = false -> vcap v = 62 /\ zlen (vl v) <= vcap v) ->
+  exists o, pow5 c TABLES LIMITS b v e = Ok o /\
+    match o with
+    | Some v' =>
+        lval (vl v') = lval (vl v) * 5 ^ e /\ limbs_ok (vl v') /\
+        (alloc c = false -> vcap v' = 62 /\ zlen (vl v') <= vcap v')
+    | None => alloc c = false /\ B64 ^ 62 <= lval (vl v) * 5 ^ e
+    end.
+Proof.
+  intros Hv Hp He Hc.
+  apply (pow5_total c TABLES LIMITS b v e); try assumption.
+  intros _. split; [exact pow5_tables_ok_TABLES|exact pow5_large_ok_TABLES].
+Qed.
+
+Theorem pow5_TABLES_None_iff_overflow c b v e :
+  limbs_ok (vl v) -> 0 < lval (vl v) -> 0 <= e ->
+  alloc c = false -> vcap v = 62 -> zlen (vl v) <= vcap v ->
+  (pow5 c TABLES LIMITS b v e = Ok None <-> B64 ^ 62 <= lval (vl v) * 5 ^ e).
+Proof.
+  intros Hv Hp He Ha Hc1 Hc2.
+  apply (pow5_None_iff_overflow c TABLES LIMITS b v e); try assumption.
+  intros _. split; [exact pow5_tables_ok_TABLES|exact pow5_large_ok_TABLES].
+Qed.
+
+(** ** the hypotheses of the main theorems are satisfiable: concrete instances *)
+Ltac limbs := apply limbs_ok_forallb; vm_compute; reflexivity.
+
+Example small_add_from_spec_inst :
+  lval [7; 4; 4] = lval [7; B64 - 1; 3] + 5 * B64 ^ 1.
+Proof.
+  pose proof (small_add_from_spec CFG_s (mkVec [7; B64 - 1; 3] 62) 5 1 (mkVec [7; 4; 4] 62)
+                ltac:(limbs) ltac:(split; vm_compute; congruence) ltac:(split; vm_compute; congruence)
+                ltac:(vm_compute; reflexivity)) as H.
+  apply H.
+Qed.
+
+Example small_mul_None_iff_overflow_inst :
+  small_mul CFG_s full_ones 2 = None <-> B64 ^ 62 <= lval (vl full_ones) * 2.
+Proof.
+  apply (small_mul_None_iff_overflow CFG_s full_ones 2);
+    [limbs|split; vm_compute; congruence|reflexivity|vm_compute; congruence].
+Qed.
+
+Example large_add_from_None_inst :
+  large_add_from CFG_s (mkVec [1; 1] 2) [1; 0; 0] 0 = None <->
+  ([1; 0; 0] <> [] /\ 2 < zlen [1; 0; 0] + 0) \/ B64 ^ 2 <= lval [1; 1] + lval [1; 0; 0] * B64 ^ 0.
+Proof.
+  apply (large_add_from_None CFG_s (mkVec [1; 1] 2) [1; 0; 0] 0);
+    [limbs|limbs|lia|reflexivity|vm_compute; congruence].
+Qed.
+
+Example long_mul_None_iff_overflow_inst :
+  long_mul CFG_s LIMITS (repeat (B64 - 1) 31) (repeat (B64 - 1) 32) = None <->
+  B64 ^ 62 <= lval (repeat (B64 - 1) 31) * lval (repeat (B64 - 1) 32).
+Proof.
+  apply (long_mul_None_iff_overflow CFG_s LIMITS);
+    [reflexivity|limbs|limbs|discriminate|vm_compute; reflexivity|discriminate|vm_compute; congruence].
+Qed.
+
+Example large_mul_spec_inst v' :
+  large_mul CFG_s LIMITS (mkVec [3; 9] 62) (LARGE_POW5 TABLES) = Some v' ->
+  lval (vl v') = (3 + 9 * B64) * 5 ^ 135.
+Proof.
+  intros H. apply large_mul_spec in H; [|limbs|limbs|left; discriminate].
+  destruct H as [H _]. rewrite H. vm_compute. reflexivity.
+Qed.
+
+Example vcompare_spec_inst : vcompare [5; 1] [B64 - 1] = (lval [5; 1] ?= lval [B64 - 1]).
+Proof. apply vcompare_spec; [limbs|limbs|reflexivity|reflexivity]. Qed.
+
+Example pow5_spec_inst b v' :
+  pow5 CFG_s TABLES LIMITS b (mkVec [3] 62) 1000 = Ok (Some v') -> lval (vl v') = 3 * 5 ^ 1000.
+Proof.
+  intros H. apply pow5_TABLES_spec in H; [|limbs|vm_compute; reflexivity|lia].
+  destruct H as [H _]. rewrite H. reflexivity.
+Qed.
+
+Print Assumptions scalar_add_spec.
+Print Assumptions scalar_mul_spec.
+Print Assumptions add_carry_spec.
+Print Assumptions mul_carry_spec.
+Print Assumptions small_add_from_spec.
+Print Assumptions small_add_from_None.
+Print Assumptions small_add_from_None_iff_overflow.
+Print Assumptions small_add_spec.
+Print Assumptions small_add_None_iff_overflow.
+Print Assumptions small_add_failed_spec.
+Print Assumptions small_mul_spec.
+Print Assumptions small_mul_None.
+Print Assumptions small_mul_None_iff_overflow.
+Print Assumptions small_mul_failed_spec.
+Print Assumptions add_lists_spec.
+Print Assumptions large_add_from_spec.
+Print Assumptions large_add_from_None.
+Print Assumptions large_add_from_None_iff_overflow.
+Print Assumptions large_add_spec.
+Print Assumptions large_add_None.
+Print Assumptions long_mul_spec.
+Print Assumptions long_mul_nil.
+Print Assumptions long_mul_None.
+Print Assumptions long_mul_fits_Some.
+Print Assumptions long_mul_heap.
+Print Assumptions long_mul_None_iff_overflow.
+Print Assumptions large_mul_spec.
+Print Assumptions large_mul_empty_quirk.
+Print Assumptions large_mul_None_iff_overflow.
+Print Assumptions large_mul_fits_Some.
+Print Assumptions cmp_be_spec.
+Print Assumptions vcompare_full.
+Print Assumptions vcompare_spec.
+Print Assumptions normalize_list_spec.
+Print Assumptions normalized_lower_bound.
+Print Assumptions pow5_spec.
+Print Assumptions pow5_total.
+Print Assumptions pow5_None_iff_overflow.
+Print Assumptions bigint_pow_5_spec.
+Print Assumptions bigint_pow_10_five_part.
+Print Assumptions pow5_TABLES_total.
+Print Assumptions pow5_TABLES_None_iff_overflow.
